@@ -565,56 +565,62 @@ func monitor(tr Trace) *Verdict {
 		}
 	}
 	// "Once k goroutines have entered, m Signal calls wake at least min(k, m) of them": counted against
-	// an ideal condition variable run on the same events. `waiting` = waiters the ideal one still has
-	// asleep, `owed` = wake-ups it has performed that the real one has not shown yet. An observed
-	// wake-up pays one owed wake-up, or else (a remembered token, a closed channel) is a spurious
-	// wake-up of a waiting waiter; an error return takes its waiter out (leniently). Wake-ups are
-	// counted, not attributed: the property text is silent about a waiter that enters after the Signal
-	// and consumes the remembered token (see notes/C16.md).
-	waiting, owed := 0, 0
-	prev = strings.Repeat("I", k)
-	var owedSince []int
+	// an ideal condition variable run on the same events. `inM` = waiters that have entered and that
+	// the ideal one may still have asleep; `anon` = Signals that woke one of them (which one is not
+	// determined), i.e. wake-ups still owed. An observed wake-up of a waiter in M pays one owed
+	// wake-up if there is one (otherwise it is a spurious wake-up: a remembered token), an error
+	// return takes its waiter out of M; a Broadcast turns M into individually owed wake-ups (checked
+	// above). Wake-ups are counted, not attributed: the property text is silent about a waiter that
+	// enters after the Signal and consumes the remembered token (see notes/C16.md).
+	inM := make([]bool, k)
+	sizeM := func() int {
+		n := 0
+		for _, b := range inM {
+			if b {
+				n++
+			}
+		}
+		return n
+	}
+	anon := 0
 	for t, st := range tr.Steps {
 		for i := 0; i < k; i++ {
 			if entered[i] == t {
-				waiting++
+				inM[i] = true
 			}
 		}
 		if st.Anomaly == "" {
 			switch st.Act.Op {
 			case "signal":
-				if waiting > 0 {
-					waiting--
-					owed++
-					owedSince = append(owedSince, t)
+				if sizeM() > anon {
+					anon++
 				}
 			case "broadcast":
-				owed += waiting
-				waiting = 0
+				for i := range inM {
+					inM[i] = false
+				}
+				anon = 0
 			}
 		}
 		for i := 0; i < k; i++ {
-			if woken[i] == t {
-				if owed > 0 {
-					owed--
-				} else if waiting > 0 {
-					waiting--
+			if woken[i] == t && inM[i] {
+				inM[i] = false
+				if anon > 0 {
+					anon--
 				}
 			}
-			if errAt[i] == t && woken[i] == never {
-				if waiting > 0 {
-					waiting--
-				} else if owed > 0 {
-					owed--
+			if errAt[i] == t && inM[i] {
+				inM[i] = false
+				if anon > sizeM() {
+					anon = sizeM()
 				}
 			}
 		}
-		prev = st.Letters
 	}
-	if owed > 0 {
+	if anon > 0 {
 		return &Verdict{Kind: "signal-wakeup-lost",
-			What: fmt.Sprintf("waiter(s) %v released the lock and are still parked at the end although %d wake-up(s) that an ideal condition variable performs for the same events never happened (%d Signal calls in the scenario, at most %d entered waiters not yet parked at a Signal)",
-				stranded, owed, nSignals, maxUnparked),
+			What: fmt.Sprintf("waiter(s) %v released the lock and are still parked at the end although %d wake-up(s) that an ideal condition variable performs for the same Signal calls never happened (%d Signal calls in the scenario, at most %d entered waiters not yet parked at a Signal)",
+				stranded, anon, nSignals, maxUnparked),
 			Params: map[string]interface{}{"unparked_waiters": maxUnparked, "signals": nSignals, "broadcasts": nBroadcasts, "cancels": nCancels}}
 	}
 	return nil
